@@ -1295,6 +1295,14 @@ func ruleNilDeref(c *Ctx, rule string, fns []*ssa.Function) {
 					c.OK(rule, construct, pos, "tabled: "+why)
 					continue
 				}
+				// the branch of a tabled function moved into a function of its own that is only reachable as an
+				// entry of the dispatch table that function reads (switch on the tag -> table indexed by the tag)
+				if user := tableOnlyUser(p, fn); user != nil {
+					if why, ok := nilderefTabled[FnName(user)+": "+describeValue(src)]; ok {
+						c.OK(rule, construct, pos, "tabled for "+FnName(user)+", whose dispatch table this function is an entry of: "+why)
+						continue
+					}
+				}
 				c.Bad(rule, construct, pos, "a nullable result is dereferenced without a dominating nil test of that value (null field ⇒ nil pointer dereference)")
 			}
 		}
@@ -2416,4 +2424,117 @@ func poolFieldHoldsTypeArg(c *Ctx, f *types.Var, idx int) (bool, int) {
 		}
 	}
 	return ok, n
+}
+
+// tableOnlyUser: fn is used nowhere but as an entry of one package-level table filled in init, and that table is
+// read by exactly one function: that function.
+func tableOnlyUser(p *Prog, fn *ssa.Function) *ssa.Function {
+	if fn.Pkg == nil || fn.Parent() != nil {
+		return nil
+	}
+	initFn := fn.Pkg.Func("init")
+	var table *ssa.Global
+	ok := true
+	var all []*ssa.Function
+	var add func(f *ssa.Function)
+	add = func(f *ssa.Function) {
+		all = append(all, f)
+		for _, a := range f.AnonFuncs {
+			add(a)
+		}
+	}
+	for _, m := range fn.Pkg.Members {
+		switch x := m.(type) {
+		case *ssa.Function:
+			add(x)
+		case *ssa.Type:
+			for _, t := range []types.Type{x.Type(), types.NewPointer(x.Type())} {
+				ms := p.SSA.MethodSets.MethodSet(t)
+				for i := 0; i < ms.Len(); i++ {
+					if mf := p.SSA.MethodValue(ms.At(i)); mf != nil && mf.Pkg == fn.Pkg {
+						add(mf)
+					}
+				}
+			}
+		}
+	}
+	uses := 0
+	var rands []*ssa.Value
+	for _, f := range all {
+		for _, b := range f.Blocks {
+			for _, in := range b.Instrs {
+				rands = in.Operands(rands[:0])
+				for _, op := range rands {
+					if op == nil || *op != ssa.Value(fn) {
+						continue
+					}
+					uses++
+					if f != initFn {
+						ok = false
+						continue
+					}
+					// ChangeType to the table's element type, then stored into the table
+					var v ssa.Value
+					if val, isV := in.(ssa.Value); isV {
+						v = val
+					}
+					if st, isSt := in.(*ssa.Store); isSt {
+						v = nil
+						if ia, isIA := st.Addr.(*ssa.IndexAddr); isIA {
+							if g, isG := ia.X.(*ssa.Global); isG {
+								table = g
+								continue
+							}
+						}
+						ok = false
+						continue
+					}
+					if v == nil || v.Referrers() == nil {
+						ok = false
+						continue
+					}
+					for _, r := range *v.Referrers() {
+						switch y := r.(type) {
+						case *ssa.Store:
+							if ia, isIA := y.Addr.(*ssa.IndexAddr); isIA {
+								if g, isG := ia.X.(*ssa.Global); isG && (table == nil || table == g) {
+									table = g
+									continue
+								}
+							}
+							ok = false
+						case *ssa.MapUpdate:
+							// the map value under construction; its global is found by its single store
+							ok = false
+						default:
+							ok = false
+						}
+					}
+				}
+			}
+		}
+	}
+	if !ok || uses == 0 || table == nil {
+		return nil
+	}
+	var reader *ssa.Function
+	for _, f := range all {
+		if f == initFn {
+			continue
+		}
+		for _, b := range f.Blocks {
+			for _, in := range b.Instrs {
+				rands = in.Operands(rands[:0])
+				for _, op := range rands {
+					if op != nil && *op == ssa.Value(table) {
+						if reader != nil && reader != f {
+							return nil
+						}
+						reader = f
+					}
+				}
+			}
+		}
+	}
+	return reader
 }
